@@ -16,7 +16,8 @@ RULE = (
     "bit-fields, struct arrays, pointers and pointer arrays, expression/EOF/null-terminated arrays, nested and anonymous "
     "members, types the generator cannot compile such as LEB128) loaded twice (compiled=True / False) x endian x "
     "packed/aligned x pointer width; inputs = a constructive input with garbage padding, every truncation of it (all cut "
-    "points up to 64 bytes, sampled beyond) and raw bytes. Oracle: loading compiled never fails where interpreted loads; "
+    "points up to 64 bytes, sampled beyond), raw bytes, and the constructive input once more behind 1-9 already consumed "
+    "bytes (aligned definitions: that many times the structure's alignment). Oracle: loading compiled never fails where interpreted loads; "
     "equal size/alignment/dynamic/field offsets; per input equal plain values, tell(), recorded sizes of byte-occupying "
     "fields (recursively); outcome asymmetries only as DESIGN §3.11 allows. Exhaustive stage: every ordered triple of 14 "
     "field kinds x {packed, aligned}. Non-trivial = compiled side really compiled, input parsed, >= 2 fields; distinct by "
@@ -147,14 +148,23 @@ def run_case(case, ctx):
         inputs.append(("cut", full[:k]))
     if case.get("raw"):
         inputs.append(("raw", bytes.fromhex(case["raw"])))
+    # the same bytes behind a header the caller has already consumed (a record in the middle of a file): both readers
+    # place the members relative to where the structure starts, whatever that position is
+    # (aligned definitions: at a multiple of the structure's alignment. At other positions the two readers of the
+    # unchanged tree disagree after a dynamically sized member; that is outside what is claimed, as for C09)
+    shift = (1 + (L + len(case["defs"])) % 9) * (max(1, int(Ti.alignment or 1)) if case["cfg"]["align"] else 1)
+    inputs.append((f"at-position-{shift}", bytes([0x5A]) * shift + full + bytes(16)))
     parsed = 0
     for kind, data in inputs:
         si, sc = io.BytesIO(data), io.BytesIO(data)
+        if kind.startswith("at-position"):
+            si.seek(shift)
+            sc.seek(shift)
         ri, rc = lib(Ti, si), lib(Tc, sc)
         ei, ec = isinstance(ri, Err), isinstance(rc, Err)
         desc = lambda: common.describe(case, {"input": data.hex(), "input_kind": kind})  # noqa: E731
         if ei and ec:
-            ctx.count(f"outcome:{kind}:both-raise")
+            ctx.count(f"outcome:{kind.split('-')[0] + '-position' if kind.startswith('at-') else kind}:both-raise")
             continue
         if ei != ec:
             val, err, who = (rc, ri, "interpreted") if ei else (ri, rc, "compiled")
@@ -183,6 +193,7 @@ def run_case(case, ctx):
         if bad:
             raise Violation("sizes-differ", f"{bad[:4]}: {desc()}")
         parsed += 1
+        kind = kind.split("-")[0] + "-position" if kind.startswith("at-") else kind
         ctx.count(f"outcome:{kind}:both-parse")
     ctx.evaluations += len(inputs) - 1
     feats = common.model_features(ref["sem"], common.ROOT)
